@@ -27,7 +27,9 @@ class FuncInfo:
     def __init__(self, module, cls, node):
         self.module = module          # module short name, e.g. 'lp'
         self.cls = cls                # ClassInfo or None
-        self.node = node
+        self.node = node              # analysed body: private helpers inlined (rsx/inline.py)
+        self.raw_node = node          # the body as written
+        self.absorbed = False         # private helper inlined at every one of its call sites
         self.name = node.name
         self.qual = (cls.name + '.' if cls else '') + node.name
         self.fq = module + '.' + self.qual
@@ -87,6 +89,8 @@ class Repo:
         self.consulted = set()
         self._load()
         self._resolve_bases()
+        if os.environ.get('RSX_NO_INLINE') != '1':
+            self._inline_helpers()
 
     # ------------------------------------------------------------------ loading
     def _load(self):
@@ -151,6 +155,63 @@ class Repo:
                         r = self.resolve_name(mod.name, b.id)
                         if isinstance(r, ClassInfo):
                             ci.bases.append(r)
+
+    def _inline_helpers(self):
+        """Replace calls to private helpers by their bodies (see rsx/inline.py) and mark helpers
+        that no longer have any un-inlined reference as absorbed."""
+        from .inline import Inliner, desugar
+        inl = Inliner(self)
+        funcs = list(self.all_functions(include_absorbed=True))
+        self.desugared = []
+        for fi in funcs:
+            node, ch = desugar(fi.raw_node)
+            if ch:
+                fi.node = fi.raw_node = node
+                self.desugared.append(fi.fq)
+        expanded = {}
+        for fi in funcs:
+            try:
+                node, changed = inl.expand(fi)
+            except RecursionError:
+                raise AnalysisError('inliner: recursion while expanding %s' % fi.fq)
+            if changed:
+                expanded[fi.fq] = node
+        for fi in funcs:
+            if fi.fq in expanded:
+                fi.node = expanded[fi.fq]
+        self.inlined = dict(inl.inlined_sites)
+        # absorbed helpers: every remaining reference sits in another absorbed helper
+        cands = {fq for fq in inl.inlined_sites}
+        by_fq = {fi.fq: fi for fi in funcs}
+        refs = {}
+        for fq in cands:
+            name = by_fq[fq].name
+            users = set()
+            for fi in funcs:
+                if fi.fq == fq:
+                    continue
+                for n in ast.walk(fi.node):
+                    if (isinstance(n, ast.Attribute) and n.attr == name) or (isinstance(n, ast.Name) and n.id == name):
+                        users.add(fi.fq)
+                        break
+            for mod in self.modules.values():
+                for st in mod.tree.body:
+                    if isinstance(st, (ast.FunctionDef, ast.AsyncFunctionDef, ast.ClassDef)):
+                        continue
+                    for n in ast.walk(st):
+                        if isinstance(n, ast.Name) and n.id == name:
+                            users.add('<module %s>' % mod.name)
+            refs[fq] = users
+        absorbed = set(cands)
+        changed = True
+        while changed:
+            changed = False
+            for fq in list(absorbed):
+                if any(u not in absorbed for u in refs[fq]):
+                    absorbed.discard(fq)
+                    changed = True
+        for fq in absorbed:
+            by_fq[fq].absorbed = True
 
     # --------------------------------------------------------------- resolution
     def module(self, name):
@@ -251,13 +312,15 @@ class Repo:
             for c in mod.classes.values():
                 yield c
 
-    def all_functions(self):
+    def all_functions(self, include_absorbed=False):
         for mod in self.modules.values():
             for f in mod.functions.values():
-                yield f
+                if include_absorbed or not f.absorbed:
+                    yield f
             for c in mod.classes.values():
                 for f in c.methods.values():
-                    yield f
+                    if include_absorbed or not f.absorbed:
+                        yield f
 
     def where(self, fi, node=None):
         line = getattr(node, 'lineno', None) or fi.node.lineno
